@@ -8,6 +8,15 @@ NOT_YET = {}
 TB = ("Trusted: Lean kernel (axioms propext, Classical.choice, Quot.sound only; audited by #print axioms on every run); "
       "the hand-written model's correspondence to the code (differential, bounded by the generators whose distribution is in the evidence); ")
 CLAIMS = {
+ "C05": dict(
+  category="proof",
+  text=("Lean 4 theorems (family built by a sub-agent under the common brief, merged and re-checked here): for every well-formed Quake 1/2/3 status reply "
+        "(distinct variables, names/skins/addresses quoted or unquoted, optional address, optional trailing NUL, 0-255 player lines) and every port / retry "
+        "count, the query over the SPEC reply equals the SPEC's expected response: named variables, one player entry per line in order, count = number of "
+        "lines (u8), every other variable unchanged in the unused entries. Tie + oracle: SPEC-generated replies and mutations on the real code. Two "
+        "findings recorded with witnesses probed on every run (negative QuakeWorld frags vs u16 score; non-UTF-8 name bytes)."),
+  note=TB + "SPEC written from the servers' print formats and node-gamedig; the two recorded findings are outside the repaired behaviour (public type / charset decisions).",
+  technique="Lean 4 proof (decode∘encode over the line-oriented status format, through the transport) + SPEC-driven differential"),
  "C20": dict(
   category="proof",
   text=("Lean 4 theorems over a model of the id-naming checker: totality — for EVERY list of (id, name) pairs (any byte strings, hence every name of "
